@@ -3,6 +3,7 @@ package main
 import (
 	"fmt"
 	"sort"
+	"strings"
 
 	"verifharness/internal/wire"
 )
@@ -27,7 +28,14 @@ func dedupSorted(l []string) []string {
 
 // genExport produces every exportTo form: unset, *, ., ~, one or two namespaces, own namespace,
 // "." plus a namespace, and (rarely) the mixtures validation would reject ("*" with "~", "~" with a namespace).
+// exportTargets: namespaces an exportTo may name: the namespaces of the case, a namespace that holds no
+// object at all and the foreign namespace the queries also ask for.
+func exportTargets(nss []string) []string {
+	return append(append([]string{}, nss...), "empty-ns", "other")
+}
+
 func genExport(r *wire.Rng, nss []string, own string, allowNone bool) []string {
+	nss = exportTargets(nss)
 	switch r.Intn(16) {
 	case 0, 1, 2, 3:
 		return nil
@@ -62,7 +70,12 @@ func genExport(r *wire.Rng, nss []string, own string, allowNone bool) []string {
 }
 
 func genDefault(r *wire.Rng, nss []string, allowNone bool) ([]string, bool) {
-	switch r.Intn(12) {
+	nss = exportTargets(nss)
+	switch r.Intn(14) {
+	case 12:
+		return dedupSorted([]string{"*", wire.Pick(r, nss)}), false
+	case 13:
+		return dedupSorted([]string{wire.Pick(r, nss), wire.Pick(r, nss)}), false
 	case 0, 1, 2, 3, 4:
 		return nil, true
 	case 5:
@@ -112,7 +125,21 @@ func genMesh(r *wire.Rng, nss []string) meshSpec {
 					if r.Chance(1, 4) {
 						l["env"] = wire.Pick(r, []string{"a", "b"})
 					}
-					p.rules = append(p.rules, sevRule{kind: "s", labels: l})
+					rule := sevRule{kind: "s", labels: l}
+					if r.Chance(1, 3) {
+						if r.Chance(1, 2) {
+							rule.labels = map[string]string{}
+						}
+						e := sevExpr{key: wire.Pick(r, []string{"team", "env"}), op: wire.Pick(r, []string{"in", "notin", "ex", "nex"})}
+						if e.op == "in" || e.op == "notin" {
+							e.values = []string{wire.Pick(r, []string{"a", "b"})}
+							if r.Chance(1, 3) {
+								e.values = []string{"a", "b"}
+							}
+						}
+						rule.exprs = append(rule.exprs, e)
+					}
+					p.rules = append(p.rules, rule)
 				}
 			}
 			m.sev.policies = append(m.sev.policies, p)
@@ -164,6 +191,9 @@ func genSvcs(r *wire.Rng, nss []string, hosts []string, n int, aliases bool, sev
 		s.ctime = r.Intn(6)
 		s.name = fmt.Sprintf("n%02d", r.Intn(50)*100+i)
 		np := 1 + r.Intn(3)
+		if r.Chance(1, 25) {
+			np = 0 // a service without ports
+		}
 		used := map[int]bool{}
 		for j := 0; j < np; j++ {
 			p := wire.Pick(r, []int{80, 81, 8080, 9090, 8443})
@@ -230,12 +260,15 @@ func genSvcs(r *wire.Rng, nss []string, hosts []string, n int, aliases bool, sev
 
 // ---------------------------------------------------------------- scope stream
 
-var vsHostPool = []string{"a.com", "b.com", "x.a.com", "*.a.com", "*.com", "*", "svc.ns1.svc.cluster.local", "*.wild.com", "w.wild.com", "*.svc.cluster.local"}
+var vsHostPool = []string{"svc", "a.com", "b.com", "x.a.com", "*.a.com", "*.com", "*", "svc.ns1.svc.cluster.local", "*.wild.com", "w.wild.com", "*.svc.cluster.local"}
 
 func genDest(r *wire.Rng, hosts []string) destSpec {
 	h := wire.Pick(r, hosts)
 	if r.Chance(1, 10) {
 		h = "nowhere.example.com"
+	}
+	if r.Chance(1, 10) {
+		h = wire.Pick(r, []string{"svc", "db"}) // a short name, resolved in the namespace of the VirtualService
 	}
 	return destSpec{h, wire.Pick(r, []int{0, 0, 0, 80, 81, 8080, 7777})}
 }
@@ -259,6 +292,8 @@ func genVS(r *wire.Rng, nss, hosts []string, i int) vsSpec {
 		v.gateways = []string{"gw1", "mesh"}
 	case 3:
 		v.gateways = []string{"./gw1"}
+	case 4:
+		v.gateways = []string{wire.Pick(r, nss) + "/gw1"} // a gateway of another namespace
 	}
 	v.gwSem = r.Chance(1, 6)
 	for k := 1 + r.Intn(2); k > 0; k-- {
@@ -277,7 +312,7 @@ func genVS(r *wire.Rng, nss, hosts []string, i int) vsSpec {
 	return v
 }
 
-var drHostPool = []string{"a.com", "*.a.com", "*.com", "*", "*.svc.cluster.local", "*.ns1.svc.cluster.local"}
+var drHostPool = []string{"svc", "db", "a.com", "*.a.com", "*.com", "*", "*.svc.cluster.local", "*.ns1.svc.cluster.local"}
 
 func genDR(r *wire.Rng, nss, hosts []string, i int) drSpec {
 	d := drSpec{name: fmt.Sprintf("d%d", i), ns: wire.Pick(r, nss), ctime: r.Intn(5)}
@@ -390,11 +425,18 @@ func genSidecar(r *wire.Rng, nss, hosts []string, i int, root string) sidecarSpe
 	}
 	for k := r.Intn(4); k > 0; k-- {
 		l := listenerSpec{}
-		switch r.Intn(8) {
+		switch r.Intn(10) {
 		case 0, 1:
 			l.port, l.proto = wire.Pick(r, []int{80, 81, 8080}), "HTTP"
 		case 2:
 			l.port, l.proto = wire.Pick(r, []int{80, 8080}), "HTTP_PROXY"
+		case 3:
+			l.port, l.proto = 9090, "TCP"
+		case 4:
+			l.port, l.proto = 8443, "TLS"
+		case 5:
+			// a unix domain socket listener: no port to match, a bind path instead
+			l.port, l.proto, l.bind = 0, "HTTP", "unix:///tmp/egress.sock"
 		}
 		exact := r.Chance(2, 5)
 		for j := 1 + r.Intn(4); j > 0; j-- {
@@ -424,6 +466,7 @@ func genScope(seed uint64, ncases int, out string) {
 			o.Line(s.line()...)
 		}
 		var gwBound []vsSpec
+		var crossGw []string
 		var allVS []vsSpec
 		var allDR []drSpec
 		var allSC []sidecarSpec
@@ -438,7 +481,14 @@ func genScope(seed uint64, ncases int, out string) {
 				if dg.ns == v.ns && r.Chance(1, 2) {
 					dns = ""
 				}
-				v.http = append(v.http, httpSpec{delegate: &[2]string{dns, dg.name}})
+				dl := httpSpec{delegate: &[2]string{dns, dg.name}}
+				if r.Chance(1, 2) {
+					// a root match: the delegate's matches must fit under it (conflicting routes are dropped)
+					for k, n := 0, 1+r.Intn(2); k < n; k++ {
+						dl.srcNs = append(dl.srcNs, wire.Pick(r, append([]string{""}, nss...)))
+					}
+				}
+				v.http = append(v.http, dl)
 				o.Line(dg.line()...)
 				allVS = append(allVS, dg)
 			}
@@ -446,6 +496,9 @@ func genScope(seed uint64, ncases int, out string) {
 			for _, g := range v.gateways {
 				if g != "mesh" {
 					gwBound = append(gwBound, v)
+				}
+				if i := strings.Index(g, "/"); i > 0 && g[:i] != "." {
+					crossGw = append(crossGw, g)
 				}
 			}
 			o.Line(v.line()...)
@@ -479,6 +532,9 @@ func genScope(seed uint64, ncases int, out string) {
 		if r.Chance(1, 2) {
 			o.Line("gw", wire.Enc(wire.Pick(r, nss)))
 		}
+		if r.Chance(1, 4) {
+			o.Line("gw", wire.Enc(wire.Pick(r, nss)), "w") // a waypoint proxy
+		}
 		for _, ns := range append(append([]string{}, nss...), "other") {
 			lbl := "-"
 			if r.Chance(1, 3) {
@@ -500,10 +556,36 @@ func genScope(seed uint64, ncases int, out string) {
 		for _, v := range gwBound {
 			o.Line("vsgw", wire.Enc(wire.Pick(r, nss)), wire.Enc(v.ns+"/gw1"))
 		}
+		for _, g := range crossGw {
+			o.Line("vsgw", wire.Enc(wire.Pick(r, nss)), wire.Enc(g))
+		}
 		xns := wire.Pick(r, nss)
 		o.Line("xds", wire.Enc(xns), lbl)
-		o.Line("eds", wire.Enc(xns), lbl)
+		o.Line("lds", wire.Enc(xns), lbl)
+		o.Line("rds", wire.Enc(xns), lbl)
+		// EDS for the plain cluster and for up to three subset clusters of every hostname of the mesh
+		var subs []string
+		for _, d := range allDR {
+			for _, sn := range d.subsets {
+				if len(subs) < 3 && r.Chance(1, 2) && !hasStr(subs, sn.name) {
+					subs = append(subs, sn.name)
+				}
+			}
+		}
+		o.Line("eds", wire.Enc(xns), lbl, encItems(subs, ","))
 		o.Line("xdsgw", wire.Enc(wire.Pick(r, nss)))
+		if len(gwBound) > 0 && r.Chance(1, 2) {
+			// the same Router with the gateway cluster filter on (GatewayServices), with and without namespace scoping
+			o.Line("xdsgwf", wire.Enc(wire.Pick(r, nss)), wire.B(r.Chance(1, 2)))
+		}
+		// the DestinationRule lookup for a bare hostname (a service object without attributes)
+		for k := r.Intn(3); k > 0; k-- {
+			h := wire.Pick(r, svcs).hostname
+			if len(allDR) > 0 && r.Chance(1, 3) {
+				h = wire.Pick(r, allDR).host
+			}
+			o.Line("drq", wire.Enc(wire.Pick(r, append(append([]string{}, nss...), m.root))), wire.Enc(h))
+		}
 		// incremental pushes: one object changes, the next PushContext is derived from the current one
 		// (updateContext) and must answer like a fresh one
 		for k := r.Intn(3); k > 0; k-- {
@@ -579,7 +661,18 @@ func genScope(seed uint64, ncases int, out string) {
 			}
 			o.Line("merged")
 			o.Line("xds", wire.Enc(xns), lbl)
-			o.Line("eds", wire.Enc(xns), lbl)
+			o.Line("lds", wire.Enc(xns), lbl)
+			o.Line("rds", wire.Enc(xns), lbl)
+			o.Line("eds", wire.Enc(xns), lbl, encItems(subs, ","))
 		}
 	}
+}
+
+func hasStr(l []string, x string) bool {
+	for _, y := range l {
+		if y == x {
+			return true
+		}
+	}
+	return false
 }
